@@ -172,6 +172,9 @@ func (tc *typechecker) checkArrayType(array *ast.ArrayType, length int) *typeInf
 	if !len.IsConstant() {
 		panic(tc.errorf(array, "non-constant array bound %s", array.Len))
 	}
+	if !len.Untyped() && !len.IsInteger() { // [float64(2)]int
+		panic(tc.errorf(array, "invalid array bound %s", array.Len))
+	}
 	c, err := len.Constant.representedBy(intType)
 	if err != nil {
 		panic(tc.errorf(array, "%s", err))
